@@ -382,6 +382,11 @@ class Formatter(FormatterInterface):
 
         dtype_math_table = math_table[arg_type.name]
 
+        if c.function not in dtype_math_table and np.issubdtype(arg_type, np.complexfloating):
+            # The bare name is the real function: it would silently be applied
+            # to the real part of the complex argument
+            raise RuntimeError(f"Function {c.function} is not available for complex arguments.")
+
         # Get a function from the table, if available, else just use bare name
         func = dtype_math_table.get(c.function, c.function)
         args = ", ".join(self(arg) for arg in c.args)
